@@ -86,6 +86,7 @@ type Tr struct {
 	havocCallee *ssa.Function
 	privateRegs []*Term
 	privateMaps []privMap
+	pureCache   map[string]Val
 	typeFactCache map[string]bool
 	curBind   []Val // bindings of the closure currently being called by contract
 }
